@@ -85,6 +85,18 @@ def classify_sanitizer(stderr_text):
     return kind, func + extra, inlib
 
 
+def crash_key(stderr_text, stdout_text, rc):
+    """Violation class of a run that killed its process: sanitizer kind + innermost library function + API operation."""
+    m = re.search(r"^X .*op:(\S*)", stdout_text, re.M)
+    op = "|op:" + m.group(1) if m else ""
+    c = classify_sanitizer(stderr_text)
+    if c:
+        return "SAN|%s|%s%s" % (c[0], c[1], op)
+    if "library called exit()" in stdout_text:
+        return "EXIT|library-called-exit" + op
+    return "CRASH|rc%s%s" % (rc, op)
+
+
 class Worker(threading.Thread):
     """Runs chunks of run indices through one simworker process at a time; restarts after a death."""
 
@@ -121,6 +133,7 @@ class Worker(threading.Thread):
             t = threading.Thread(target=lambda: errbuf.append(p.stderr.read()), daemon=True)
             t.start()
             started = None
+            xline = None
             done_idx = idx - 1
             for line in p.stdout:
                 if line.startswith("S "):
@@ -135,6 +148,8 @@ class Worker(threading.Thread):
                 elif line.startswith("D "):
                     _, hit, tot = line.split()
                     ctx.on_cov(variant, int(hit), int(tot))
+                elif line.startswith("X "):
+                    xline = line.strip()
                 elif line.startswith("E "):
                     ctx.machinery_error(line.strip())
                 if ctx.deadline and time.time() > ctx.deadline + 30:
@@ -143,7 +158,7 @@ class Worker(threading.Thread):
             t.join()
             if started is not None and started > done_idx:
                 # the worker died inside run `started`
-                ctx.on_death(variant, started, p.returncode, errbuf[0] if errbuf else "")
+                ctx.on_death(variant, started, p.returncode, (errbuf[0] if errbuf else "") + ("\n" + xline if xline else ""))
                 idx = started + 1
             else:
                 idx = done_idx + 1
@@ -176,12 +191,7 @@ def run_replay(exe, path, timeout=120, twice=False):
         elif line.startswith("E "):
             keys.setdefault("MACHINERY|" + line[2:40], line)
     if p.returncode not in (0, 1):
-        c = classify_sanitizer(p.stderr)
-        if c:
-            kind, func, inlib = c
-            keys.setdefault("SAN|%s|%s" % (kind, func), p.stderr[-3000:])
-        else:
-            keys.setdefault("CRASH|rc%d" % p.returncode, p.stderr[-2000:])
+        keys.setdefault(crash_key(p.stderr, p.stdout, p.returncode), p.stderr[-3000:] or p.stdout[-500:])
     return set(keys), keys, p.returncode, p.stderr
 
 
@@ -194,7 +204,8 @@ def load_known():
 
 def match_known(known, prop, key):
     for f in known.get("findings", []):
-        if prop in f.get("properties", [f.get("property")]) and re.fullmatch(f["key_regex"], key):
+        rx = f["key_regex"] if isinstance(f["key_regex"], list) else [f["key_regex"]]
+        if prop in f.get("properties", [f.get("property")]) and any(re.fullmatch(x, key) for x in rx):
             return f
     return None
 
@@ -289,11 +300,7 @@ def main():
     ctx.on_cov = on_cov
 
     def on_death(variant, idx, rc, err):
-        c = classify_sanitizer(err)
-        if c:
-            key = "SAN|%s|%s" % (c[0], c[1])
-        else:
-            key = "CRASH|rc%s" % rc
+        key = crash_key(err, err, rc)
         with ctx.lock:
             ctx.results += 1
             n = ctx.cand_keys.get(key, 0)
@@ -401,7 +408,7 @@ def main():
         v = c.get("variant") or variants[0]
         exe = exes.get(v) or exes[variants[0]]
         ks, det, rc, err = run_replay(exe, rp)
-        if any(re.fullmatch(kf["key_regex"], k) for k in ks):
+        if any(match_known({"findings": [kf]}, prop, k) for k in ks):
             known_hits[kf["id"]] = kf
         elif ks:
             for k in sorted(ks):
